@@ -50,6 +50,16 @@ def explore(res, rng, n):
             continue
         exact = [Fraction(t) for t in toks[1:]]
         w = utils.centralDiffWeights(m, k)
+        # the caller may scale the weights in place (w /= h**n, as in the documentation): a later call is not affected by that
+        w_first = np.array(w, dtype=float)
+        try:
+            w *= 7.0
+        except Exception:  # noqa (a read-only result cannot be aliased)
+            pass
+        w = utils.centralDiffWeights(m, k)
+        if not np.array_equal(np.array(w, dtype=float), w_first):
+            fail(res, 'a second call returns weights altered by what the caller did to the first result', {'Np': m, 'ndiv': k},
+                 [list(map(float, w)), w_first.tolist()])
         tol = 1e-7 * max(abs(float(x)) for x in exact)
         if len(w) != m or any(abs(float(wi) - float(e)) > tol for wi, e in zip(w, exact)):
             fail(res, 'centralDiffWeights differs from the solution of the moment system', {'Np': m, 'ndiv': k},
@@ -151,6 +161,19 @@ def explore(res, rng, n):
                 res.stat('gram_schmidt_near_parallel_alignment')
         M = M * sc
         v = v * vs
+        if rng.random() < 0.25:
+            # default alignment vector (None = the first column), at every scale
+            Bd, Jd = utils.gramSchmidOrth(M.tolist())
+            Bd, Jd = np.array(Bd), np.array(Jd)
+            res.evaluations += 1
+            res.stat('gram_schmidt_default_alignment')
+            cased = {'A': M.tolist(), 'alignVec': None}
+            if not np.allclose(Bd.T @ Bd, np.eye(d), atol=1e-9):
+                fail(res, 'Gram-Schmidt columns not orthonormal', cased, (Bd.T @ Bd).tolist())
+            if not np.allclose(Bd[:, 0], M[:, 0] / np.linalg.norm(M[:, 0]), atol=1e-9):
+                fail(res, 'first column is not the normalised alignment vector', cased, Bd[:, 0].tolist())
+            if not np.allclose(Jd @ M, Bd, atol=1e-8):
+                fail(res, 'J A != B', cased, (Jd @ M).tolist())
         B, J = utils.gramSchmidOrth(M.tolist(), v.tolist())
         B, J = np.array(B), np.array(J)
         res.evaluations += 1
